@@ -25,7 +25,7 @@ ASSUMPTIONS = [
     "tolerance = half a unit of the last printed digit of the token fmt % x, plus 4 ulp of slack",
 ]
 REQUIRED = ["write_read_pairs", "samples_compared", "wrapped_pairs_multi_line", "pairs_curve_count_multiple_of_capacity",
-            "engine_numpy_pairs", "engine_normal_pairs", "nan_samples_compared", "index_null_equal_samples", "cases_in_memory_dlm_not_space", "rewrites_after_inplace_edit", "cases_data_width_equals_widest_field", "second_generation_writes"]
+            "engine_numpy_pairs", "engine_normal_pairs", "nan_samples_compared", "index_null_equal_samples", "cases_in_memory_dlm_not_space", "rewrites_after_inplace_edit", "cases_data_width_equals_widest_field", "second_generation_writes", "cases_digit_named_curves"]
 SOFT_DEADLINE = {"quick": 90, "thorough": 1500}
 LEVEL_TEXT = ("Exploration of the (shape x values x writer options x engine) product space with a per-sample oracle whose "
               "tolerance is derived from the token actually printed; line capacity is observed from the emitted text.")
@@ -181,6 +181,10 @@ def run_case(case, ctx):
     las = lasio.LASFile()
     las.well["NULL"].value = null
     names = ["DEPT"] + ["C%d" % j for j in range(1, n)]
+    if case.get("seed", 0) % 5 == 4 and n >= 3:
+        # curves named by bare numbers that are positions of *other* curves (array channels, DataFrame integer labels)
+        names = ["DEPT"] + [str((j + 1) % n) for j in range(1, n)]
+        ctx.count("cases_digit_named_curves")
     for j in range(n):
         las.append_curve(names[j], np.array(data[j], dtype=float), unit="m" if j == 0 else "u")
     if case.get("seed", 0) % 4 == 1:
@@ -222,15 +226,16 @@ def run_case(case, ctx):
             ctx.count("pairs_curve_count_multiple_of_capacity")
     tag = "wrapped" if opts.get("wrap") else "unwrapped"
     detail = {"text": text if len(text) < 6000 else text[:6000], "opts": opts, "engine": case["engine"], "tokens_per_physical_line": per_line}
-    keys = [c.original_mnemonic for c in las2.curves]
+    keys = [c.original_mnemonic for c in list.__iter__(las2.curves)]
     if len(keys) != n:
         ctx.violation("curve-count-changed:" + tag, "%d curves written, %d read back (tokens per line %r)" % (n, len(keys), per_line), detail)
         return
     if keys != names:
         ctx.violation("curve-order-or-mnemonics-changed:" + tag, "mnemonics %r -> %r" % (names[:8], keys[:8]), detail)
     finite_nonint = 0
+    curves2 = [c for c in list.__iter__(las2.curves)]      # by position: lasio's own integer lookup tries mnemonics first
     for j in range(n):
-        got = np.asarray(las2.curves[j].data)
+        got = np.asarray(curves2[j].data)
         if got.shape != (r,):
             ctx.violation("row-count-changed:" + tag, "curve #%d has %r samples, %d written" % (j, got.shape, r), detail)
             return
@@ -299,10 +304,11 @@ def run_case(case, ctx):
             ctx.violation("rewrite-after-edit-raised:%s" % type(e).__name__, "second write/read after in-place edits raised %r" % (e,), detail)
         else:
             for j, i, newv in edits:
-                if len(las3.curves) != n or len(las3.curves[j].data) != r:
+                c3 = [c for c in list.__iter__(las3.curves)]
+                if len(c3) != n or len(c3[j].data) != r:
                     ctx.violation("rewrite-after-edit-shape", "shape changed on the second write", detail)
                     break
-                y = float(las3.curves[j].data[i])
+                y = float(c3[j].data[i])
                 tok = fmt_for(opts, j) % newv
                 tol = 0.5 * unit_of_token(tok) * (1 + 1e-9) + 4 * abs(math.ulp(newv))
                 if not abs(y - newv) <= tol:
